@@ -45,7 +45,7 @@ from mitmproxy.proxy.layers.quic._raw_layers import RawQuicLayer
 ID = "C30"
 LEVEL = "exploration"
 ENGINE = "simkit/layer-harness"
-QUICK_RUNS = 150000
+QUICK_RUNS = 300000
 QUICK_BUDGET_S = 120
 THOROUGH_BUDGET_S = 900
 CHUNK = 1000
@@ -236,6 +236,25 @@ class World:
             self.violate("layer_exception", {"type": type(e).__name__, "where": where},
                          f"step {self.step}: {type(e).__name__}: {e} at {where} while handling {desc}")
             self.crashed = True
+            return
+        self.rider_c04()
+
+    def rider_c04(self):
+        """C04 rider on the real layer tree: a layer that is not paused has no queued events."""
+        seen = []
+        todo = [self.layer, self.layer.datagram_layer] + list(self.layer.client_stream_ids.values())
+        while todo:
+            lay = todo.pop()
+            if lay is None or any(lay is s for s in seen):
+                continue
+            seen.append(lay)
+            for attr in ("child_layer", "layer"):
+                sub = getattr(lay, attr, None)
+                if isinstance(sub, layer.Layer):
+                    todo.append(sub)
+            if not lay._paused and lay._paused_event_queue:
+                self.violate("rider_c04_idle_layer_has_queued_events", {"layer": type(lay).__name__},
+                             f"step {self.step}: {lay!r} is not paused but holds {len(lay._paused_event_queue)} queued events")
 
     def complete(self, idx):
         cmd = self.outstanding.pop(idx)
